@@ -65,6 +65,12 @@ pub const ACTIONS: &[(&str, &str)] = &[
     ("tmp-function-unset-twice", "tv() { unset x; unset x; echo \"in=${x-UNSET}\"; }; x=tmp tv"),
     ("tmp-function-local", "tw() { local x; echo \"in=${x-UNSET}\"; x=loc; }; x=tmp tw"),
     ("tmp-function-export", "ty() { export x; venv x; }; x=tmp ty"),
+    // declaring again a name that is already a local of this very function call (value and attributes carry over)
+    ("local-x-bare", "local x"),
+    ("local-u-x", "local -u x"),
+    ("local-i-x", "local -i x"),
+    ("local-r-x", "local -r x=lro"),
+    ("declare-x-bare", "declare x"),
 ];
 
 const PROBE: &str = "pr() { local n; for n in x a r; do declare -p $n 2>/dev/null || echo \"$n: unset\"; done; venv x a r; }\n";
